@@ -56,11 +56,38 @@ def run(ctx):
         break
     parallel(ctx, quick, behs)
     sigkill(ctx, quick, behs)
+    diskfull(ctx, quick)
     ctx.assumptions += [
         "crashes are in-process: the state object is dropped and the bbolt file closed and re-opened at the decorator's crash points "
         "(before / after the backing-store write, between operations); bbolt's own transaction atomicity is trusted",
         "six marshaler stackings (protobuf, encryption, zstd below/above threshold, both nestings)",
     ]
+
+
+def diskfull(ctx, quick):
+    """Faults that happen INSIDE bbolt: the database file may not grow beyond a small maximum size, so transactions fail at commit
+    time (harness/c10 TestDiskFull). Every rejected operation must leave no trace in memory, and the re-opened file must hold
+    exactly what was acknowledged (TracePersist)."""
+    binary = vlib.go_build_test(ctx, "c10")
+    out = os.path.join(ctx.scratch, "diskfull.ndjson")
+    vlib.go_run(ctx, binary, "TestDiskFull", {"VERIF_OUT": out, "VERIF_ROUNDS": 6 if quick else 36}, timeout=3000)
+    recs = vlib.read_ndjson(out)
+    traces = vlib.split_traces(recs)
+    mism, consumed, r = vlib.validate(ctx, "TracePersist", "TracePersist.cfg", out, timeout=3000, name="val-diskfull")
+    if consumed != len(recs):
+        raise vlib.Infra("TracePersist consumed %s of %d\n%s" % (consumed, len(recs), r.out[-2500:]))
+    details = [x for x in r.out.splitlines() if x.startswith('<<"DETAIL"')]
+    ctx.cov["traces_validated_against_impl"] += len(traces)
+    ctx.cov["diskfull_rejected_commits"] = len([x for x in recs if x["ev"] == "op" and x["inj"]])
+    ctx.cov["diskfull_acknowledged_writes"] = len([x for x in recs if x["ev"] == "op" and x["cls"] == "ok"])
+    if not ctx.cov["diskfull_rejected_commits"] and not mism:
+        raise vlib.Infra("disk-full stage: bbolt never rejected a commit")
+    for i, line in enumerate(mism):
+        m = re.match(r'<<"MISMATCH", "([^"]*)", (\d+), "([^"]*)">>', line)
+        tid, lno, what = m.group(1), int(m.group(2)), m.group(3)
+        ctx.violation("diskfull/%s" % what, "%s at line %d (bbolt file at its maximum size, marshaler %s): %s" % (
+            what, lno, tid.split("#")[0], (details[i] if i < len(details) else "")[:700]),
+            {"tid": tid, "line": lno, "trace": [t for t in traces if t[0] == tid][0][1][:lno + 1]})
 
 
 def sigkill(ctx, quick, behs):
